@@ -291,6 +291,30 @@ Proof.
     cbn [dot_list combine map]; rs; try ring.
   rewrite <- IH by lia. rewrite vdot_vadd_r. ring.
 Qed.
+Lemma vadd_list_length (l r : list RV) : length r = length l -> length (vadd_list Rops l r) = length l.
+Proof.
+  revert r; induction l as [|a l IH]; intros [|b r] H; cbn [length vadd_list] in *; try discriminate; try reflexivity.
+  rewrite IH by lia. reflexivity.
+Qed.
+Lemma dot_list_vadd_list (l a b : list RV) : length a = length b ->
+  dot_list Rops l a + dot_list Rops l b = dot_list Rops l (vadd_list Rops a b).
+Proof.
+  revert a b; induction l as [|x l IH]; intros [|u a] [|v b] H; cbn [length] in H; try discriminate;
+    cbn [dot_list vadd_list]; rs; try ring.
+  rewrite <- IH by lia. rewrite vdot_vadd_r. ring.
+Qed.
+(* the inverse gradient along a complete gradient G = g + fit: projecting the forces fc g + fc fit on G / sum |G|^2 gives fc *)
+Lemma inv_complete_gradient ids (g fit : list RV) fc : NoDup ids -> length g = length ids -> length fit = length ids ->
+  norm2_sum Rops (vadd_list Rops g fit) <> 0 ->
+  adot Rops ids (vadd_list Rops g fit) (fadd Rops (aapply Rops ids g fc) (aapply Rops ids fit fc)) / norm2_sum Rops (vadd_list Rops g fit) = fc.
+Proof.
+  intros Hn Hg Hf Hs.
+  assert (HG : length (vadd_list Rops g fit) = length ids) by (rewrite vadd_list_length; lia).
+  rewrite adot_fadd, !adot_aapply by (try exact Hn; lia).
+  replace (fc * dot_list Rops (vadd_list Rops g fit) g + fc * dot_list Rops (vadd_list Rops g fit) fit)
+    with (fc * (dot_list Rops (vadd_list Rops g fit) g + dot_list Rops (vadd_list Rops g fit) fit)) by ring.
+  rewrite dot_list_vadd_list by lia. rewrite dot_list_self. field. exact Hs.
+Qed.
 Lemma norm2_sum_nonneg (l : list RV) : 0 <= norm2_sum Rops l.
 Proof.
   induction l as [|a l IH]; unfold norm2_sum in *; cbn [map]; [unfold tsum; cbn [fold_right]; rs; lra|].
@@ -590,15 +614,32 @@ Section Components.
     - destruct (IH cur) as [E|E]; [left; exact E | right; right; exact E].
   Qed.
   (* symmetry-adapted rmsd: whichever copy of the reference is selected, application and measurement use the same one *)
-  Lemma inv_rmsd ids refs extra c fc : NoDup ids ->
-    (forall r, In r (refs :: extra) -> length r = length ids) ->
-    rmsd_value Rops pos ids (rmsd_best Rops pos ids refs extra c) c <> 0 ->
-    (forall rc, c = Some rc -> forall r, In r (refs :: extra) -> vsum Rops r = vscale Rops (ofnat Rops (length ids)) rc) ->
-    ft (CRmsd ids refs extra c) (app (CRmsd ids refs extra c) fc) = fc.
+  Lemma rmsd_grads_length ids r c : length r = length ids -> length (rmsd_grads Rops pos ids r c) = length ids.
   Proof.
-    intros Hn Hl Hx Hc. cbn [cvc_ft cvc_apply].
-    pose proof (best_copy_In (frame_pos Rops pos ids c) refs extra) as Hin. fold (rmsd_best Rops pos ids refs extra c) in Hin.
-    apply inv_rmsd_expr; [exact Hn | exact (Hl _ Hin) | exact Hx | intros rc E; exact (Hc rc E _ Hin)].
+    intros H. unfold rmsd_grads. rewrite map_length. unfold rmsd_diff. rewrite vsub_list_length; rewrite frame_pos_length; [reflexivity|exact H].
+  Qed.
+  (* not centred (no fit gradients): N times the gradient *)
+  Lemma inv_rmsd ids refs extra fc : NoDup ids ->
+    (forall r, In r (refs :: extra) -> length r = length ids) ->
+    rmsd_value Rops pos ids (rmsd_best Rops pos ids refs extra None) None <> 0 ->
+    ft (CRmsd ids refs extra None) (app (CRmsd ids refs extra None) fc) = fc.
+  Proof.
+    intros Hn Hl Hx. cbn [cvc_ft cvc_apply]. cbv zeta.
+    pose proof (best_copy_In (frame_pos Rops pos ids None) refs extra) as Hin. fold (rmsd_best Rops pos ids refs extra None) in Hin.
+    apply inv_rmsd_expr; [exact Hn | exact (Hl _ Hin) | exact Hx | intros rc E; discriminate].
+  Qed.
+  (* centred (fit gradients on): the complete gradient, whatever the centre of the group's own reference positions *)
+  Lemma inv_rmsd_centered ids refs extra rc fc : NoDup ids ->
+    (forall r, In r (refs :: extra) -> length r = length ids) ->
+    (let g := rmsd_grads Rops pos ids (rmsd_best Rops pos ids refs extra (Some rc)) (Some rc) in
+     norm2_sum Rops (vadd_list Rops g (fit_grads Rops (length ids) (Some rc) g)) <> 0) ->
+    ft (CRmsd ids refs extra (Some rc)) (app (CRmsd ids refs extra (Some rc)) fc) = fc.
+  Proof.
+    intros Hn Hl Hx. cbn [cvc_ft cvc_apply]. cbv zeta in *.
+    pose proof (best_copy_In (frame_pos Rops pos ids (Some rc)) refs extra) as Hin. fold (rmsd_best Rops pos ids refs extra (Some rc)) in Hin.
+    set (g := rmsd_grads Rops pos ids (rmsd_best Rops pos ids refs extra (Some rc)) (Some rc)) in *.
+    assert (Hg : length g = length ids) by (apply rmsd_grads_length; exact (Hl _ Hin)).
+    apply inv_complete_gradient; [exact Hn | exact Hg | rewrite fit_grads_length; exact Hg | exact Hx].
   Qed.
 
   Lemma vsum_eig_vec (evec : list RV) : evec <> [] -> vsum Rops (eig_vec Rops evec) = v0.
@@ -685,16 +726,40 @@ Section Rotated.
     assert (HS : norm2_sum Rops D = N * (x * x)) by (rewrite Hsq; field; lra).
     rewrite HS. unfold k. field. split; lra.
   Qed.
-  Lemma inv_rmsd_rot ids refs extra rotf jdf fc : NoDup ids ->
-    (forall r, In r (refs :: extra) -> length r = length ids) -> qnorm2 Rops (rotf pos) = 1 ->
-    rmsdrot_value Rops pos ids refs (rotmat Rops (rotf pos)) (rmsdrot_best Rops pos ids refs extra (rotmat Rops (rotf pos))) <> 0 ->
-    ft (CRmsdRot ids refs extra rotf jdf) (app (CRmsdRot ids refs extra rotf jdf) fc) = fc.
+  (* standard rotated rmsd (no atomPermutation): fit gradients disabled *)
+  Lemma inv_rmsd_rot ids refs rotf jdf fitf fc : NoDup ids -> length refs = length ids -> qnorm2 Rops (rotf pos) = 1 ->
+    rmsdrot_value Rops pos ids refs (rotmat Rops (rotf pos)) refs <> 0 ->
+    ft (CRmsdRot ids refs [] rotf jdf fitf) (app (CRmsdRot ids refs [] rotf jdf fitf) fc) = fc.
   Proof.
-    intros Hn Hl Hq Hx. cbn [cvc_ft cvc_apply]. cbv zeta.
-    pose proof (best_copy_In (rot_frame Rops pos ids refs (rotmat Rops (rotf pos))) refs extra) as Hin.
-    fold (rmsdrot_best Rops pos ids refs extra (rotmat Rops (rotf pos))) in Hin.
+    intros Hn Hl Hq Hx. cbn [cvc_ft cvc_apply]. cbv zeta. cbn [rmsdrot_best best_copy].
     rewrite (map_ext _ (mtvmul Rops (rotmat Rops (rotf pos))) (rotmat_conj (rotf pos))).
-    apply inv_rmsd_rot_expr; [exact Hn | exact (Hl _ Hin) | apply rotmat_orthogonal; exact Hq | exact Hx].
+    apply inv_rmsd_rot_expr; [exact Hn | exact Hl | apply rotmat_orthogonal; exact Hq | exact Hx].
+  Qed.
+  Lemma frot_fadd (m : RM) (A B : RF) b : frot Rops m (fadd Rops A B) b = fadd Rops (frot Rops m A) (frot Rops m B) b.
+  Proof. unfold frot, fadd. apply mvmul_vadd. Qed.
+  Lemma rmsdrot_grads_length ids refs (m : RM) r : length r = length ids -> length (rmsdrot_grads Rops pos ids refs m r) = length ids.
+  Proof.
+    intros H. unfold rmsdrot_grads. rewrite map_length. unfold rmsdrot_diff. rewrite vsub_list_length; rewrite rot_frame_length; [reflexivity|exact H].
+  Qed.
+  (* symmetry-adapted rotated rmsd: the forces contain fc * fit_gradients (derivatives of the optimal rotation, an input):
+     the projection on the complete gradient is the inverse for EVERY value of that input *)
+  Lemma inv_rmsd_rot_perm ids refs e es rotf jdf fitf fc : NoDup ids ->
+    (forall r, In r (refs :: e :: es) -> length r = length ids) -> length (fitf pos) = length ids -> qnorm2 Rops (rotf pos) = 1 ->
+    (let R := rotmat Rops (rotf pos) in
+     let g := rmsdrot_grads Rops pos ids refs R (rmsdrot_best Rops pos ids refs (e :: es) R) in
+     norm2_sum Rops (vadd_list Rops g (map (mvmul Rops R) (fitf pos))) <> 0) ->
+    ft (CRmsdRot ids refs (e :: es) rotf jdf fitf) (app (CRmsdRot ids refs (e :: es) rotf jdf fitf) fc) = fc.
+  Proof.
+    intros Hn Hl Hf Hq Hx. cbn [cvc_ft cvc_apply]. cbv zeta in *. set (Rm := rotmat Rops (rotf pos)) in *.
+    assert (Ho : orthogonal Rm) by (apply rotmat_orthogonal; exact Hq).
+    pose proof (best_copy_In (rot_frame Rops pos ids refs Rm) refs (e :: es)) as Hin.
+    fold (rmsdrot_best Rops pos ids refs (e :: es) Rm) in Hin.
+    set (g := rmsdrot_grads Rops pos ids refs Rm (rmsdrot_best Rops pos ids refs (e :: es) Rm)) in *.
+    assert (Hg : length g = length ids) by (apply rmsdrot_grads_length; exact (Hl _ Hin)).
+    rewrite (map_ext _ (mtvmul Rops Rm) (rotmat_conj (rotf pos))).
+    rewrite (adot_ext ids _ _ (fadd Rops (aapply Rops ids g fc) (aapply Rops ids (map (mvmul Rops Rm) (fitf pos)) fc))).
+    - apply inv_complete_gradient; [exact Hn | exact Hg | rewrite map_length; exact Hf | exact Hx].
+    - intros b _. rewrite frot_fadd. unfold fadd. rewrite !frot_aapply, map_orthogonal by exact Ho. reflexivity.
   Qed.
 
   Lemma inv_eigenvector_rot ids refs evec rotf jdf fc : NoDup ids -> length evec = length ids -> qnorm2 Rops (rotf pos) = 1 ->
@@ -725,7 +790,7 @@ Section General.
   Lemma cvc_ft_linear (c : RC) (F G : RF) a b :
     ft c (fadd Rops (fscale Rops a F) (fscale Rops b G)) = a * ft c F + b * ft c G.
   Proof.
-    destruct c as [g1 g2 os|gm gr gr2 axis os|gm gr gr2 axis os|g1 g2 g3 os|g1 g2 g3 g4 os|ids|ids refs extra c|ids refs evec c|ids refs extra rotf jdf|ids refs evec rotf jdf];
+    destruct c as [g1 g2 os|gm gr gr2 axis os|gm gr gr2 axis os|g1 g2 g3 os|g1 g2 g3 g4 os|ids|ids refs extra c|ids refs evec c|ids refs extra rotf jdf fitf|ids refs evec rotf jdf];
       cbn [cvc_ft]; rewrite ?gforce_fadd, ?gforce_fscale, ?adot_fadd, ?adot_fscale.
     - set (u := vunit Rops _). set (x := gforce Rops F g1). set (y := gforce Rops G g1).
       set (x' := gforce Rops F g2). set (y' := gforce Rops G g2). destruct os; vd; vu; unfold Rdiv; ring.
@@ -742,12 +807,17 @@ Section General.
       set (x := gforce Rops F g1). set (y := gforce Rops G g1).
       set (x' := gforce Rops F g4). set (y' := gforce Rops G g4). destruct os; vd; vu; unfold Rdiv; ring.
     - ring.
-    - rs. ring.
+    - cbv zeta. destruct c; rs; unfold Rdiv; ring.
     - ring.
-    - cbv zeta. rewrite (adot_ext _ _ (frot Rops (rotmat Rops (rotf pos)) (fadd Rops (fscale Rops a F) (fscale Rops b G)))
+    - cbv zeta. destruct extra.
+      + rewrite (adot_ext _ _ (frot Rops (rotmat Rops (rotf pos)) (fadd Rops (fscale Rops a F) (fscale Rops b G)))
                  (fadd Rops (fscale Rops a (frot Rops (rotmat Rops (rotf pos)) F)) (fscale Rops b (frot Rops (rotmat Rops (rotf pos)) G))))
-        by (intros x _; unfold frot, fadd, fscale; rewrite mvmul_vadd, !mvmul_vscale; reflexivity).
-      rewrite adot_fadd, !adot_fscale. rs. ring.
+          by (intros x _; unfold frot, fadd, fscale; rewrite mvmul_vadd, !mvmul_vscale; reflexivity).
+        rewrite adot_fadd, !adot_fscale. rs. ring.
+      + rewrite (adot_ext _ _ (frot Rops (rotmat Rops (rotf pos)) (fadd Rops (fscale Rops a F) (fscale Rops b G)))
+                 (fadd Rops (fscale Rops a (frot Rops (rotmat Rops (rotf pos)) F)) (fscale Rops b (frot Rops (rotmat Rops (rotf pos)) G))))
+          by (intros x _; unfold frot, fadd, fscale; rewrite mvmul_vadd, !mvmul_vscale; reflexivity).
+        rewrite adot_fadd, !adot_fscale. rs. unfold Rdiv. ring.
     - cbv zeta. rewrite (adot_ext _ _ (frot Rops (rotmat Rops (rotf pos)) (fadd Rops (fscale Rops a F) (fscale Rops b G)))
                  (fadd Rops (fscale Rops a (frot Rops (rotmat Rops (rotf pos)) F)) (fscale Rops b (frot Rops (rotmat Rops (rotf pos)) G))))
         by (intros x _; unfold frot, fadd, fscale; rewrite mvmul_vadd, !mvmul_vscale; reflexivity).
@@ -759,7 +829,7 @@ Section General.
     intros H.
     assert (E : forall g, (forall a, In a (gids g) -> In a (cvc_atoms c)) -> gforce Rops F g = gforce Rops G g).
     { intros g Hg. apply gforce_ext. intros a Ha. apply H, Hg, Ha. }
-    destruct c as [g1 g2 os|gm gr gr2 axis os|gm gr gr2 axis os|g1 g2 g3 os|g1 g2 g3 g4 os|ids|ids refs extra c|ids refs evec c|ids refs extra rotf jdf|ids refs evec rotf jdf];
+    destruct c as [g1 g2 os|gm gr gr2 axis os|gm gr gr2 axis os|g1 g2 g3 os|g1 g2 g3 g4 os|ids|ids refs extra c|ids refs evec c|ids refs extra rotf jdf fitf|ids refs evec rotf jdf];
       cbn [cvc_ft cvc_atoms] in *.
     - rewrite (E g1), (E g2) by (intros a Ha; rewrite ?in_app_iff; tauto). reflexivity.
     - rewrite (E gm), (E gr) by (intros a Ha; rewrite ?in_app_iff; tauto). reflexivity.
@@ -767,9 +837,9 @@ Section General.
     - rewrite (E g1), (E g3) by (intros a Ha; rewrite ?in_app_iff; tauto). reflexivity.
     - rewrite (E g1), (E g4) by (intros a Ha; rewrite ?in_app_iff; tauto). reflexivity.
     - apply adot_ext. exact H.
-    - f_equal. apply adot_ext. exact H.
+    - cbv zeta. destruct c; f_equal; apply adot_ext; exact H.
     - apply adot_ext. exact H.
-    - cbv zeta. f_equal. apply adot_ext. intros x Hx. unfold frot. rewrite (H x Hx). reflexivity.
+    - cbv zeta. destruct extra; f_equal; apply adot_ext; intros x Hx; unfold frot; rewrite (H x Hx); reflexivity.
     - apply adot_ext. intros x Hx. unfold frot. rewrite (H x Hx). reflexivity.
   Qed.
 
@@ -779,7 +849,7 @@ Section General.
     intros H.
     assert (E : forall g, (forall a, In a (gids g) -> In a (cvc_measured c)) -> gforce Rops F g = gforce Rops G g).
     { intros g Hg. apply gforce_ext. intros a Ha. apply H, Hg, Ha. }
-    destruct c as [g1 g2 os|gm gr gr2 axis os|gm gr gr2 axis os|g1 g2 g3 os|g1 g2 g3 g4 os|ids|ids refs extra c|ids refs evec c|ids refs extra rotf jdf|ids refs evec rotf jdf];
+    destruct c as [g1 g2 os|gm gr gr2 axis os|gm gr gr2 axis os|g1 g2 g3 os|g1 g2 g3 g4 os|ids|ids refs extra c|ids refs evec c|ids refs extra rotf jdf fitf|ids refs evec rotf jdf];
       cbn [cvc_ft cvc_measured] in *.
     - destruct os; [rewrite (E g1) by (intros a Ha; exact Ha); reflexivity|].
       rewrite (E g1), (E g2) by (intros a Ha; rewrite ?in_app_iff; tauto). reflexivity.
@@ -794,9 +864,9 @@ Section General.
     - destruct os; [rewrite (E g1) by (intros a Ha; exact Ha); reflexivity|].
       rewrite (E g1), (E g4) by (intros a Ha; rewrite ?in_app_iff; tauto). reflexivity.
     - apply adot_ext. exact H.
-    - f_equal. apply adot_ext. exact H.
+    - cbv zeta. destruct c; f_equal; apply adot_ext; exact H.
     - apply adot_ext. exact H.
-    - cbv zeta. f_equal. apply adot_ext. intros x Hx. unfold frot. rewrite (H x Hx). reflexivity.
+    - cbv zeta. destruct extra; f_equal; apply adot_ext; intros x Hx; unfold frot; rewrite (H x Hx); reflexivity.
     - apply adot_ext. intros x Hx. unfold frot. rewrite (H x Hx). reflexivity.
   Qed.
 
@@ -805,7 +875,7 @@ Section General.
     intros H.
     assert (E : forall g v, (forall b, In b (gids g) -> In b (cvc_atoms c)) -> gapply Rops mass g v fc a = v0).
     { intros g v Hg. apply gapply_support. intros Ha. apply H, Hg, Ha. }
-    destruct c as [g1 g2 os|gm gr gr2 axis os|gm gr gr2 axis os|g1 g2 g3 os|g1 g2 g3 g4 os|ids|ids refs extra c|ids refs evec c|ids refs extra rotf jdf|ids refs evec rotf jdf];
+    destruct c as [g1 g2 os|gm gr gr2 axis os|gm gr gr2 axis os|g1 g2 g3 os|g1 g2 g3 g4 os|ids|ids refs extra c|ids refs evec c|ids refs extra rotf jdf fitf|ids refs evec rotf jdf];
       cbn [cvc_apply cvc_atoms] in *.
     - unfold fadd. rewrite !E by (intros b Hb; rewrite ?in_app_iff; tauto). apply vadd_0_l.
     - destruct gr2 as [g2|]; unfold fadd; rewrite !E by (intros b Hb; rewrite ?in_app_iff; tauto); rewrite ?vadd_0_l; reflexivity.
@@ -816,7 +886,8 @@ Section General.
     - apply aapply_support. exact H.
     - unfold fadd. rewrite !aapply_support by exact H. apply vadd_0_l.
     - unfold fadd. rewrite !aapply_support by exact H. apply vadd_0_l.
-    - apply aapply_support. exact H.
+    - cbv zeta. destruct extra; [apply aapply_support; exact H|].
+      unfold fadd. rewrite !aapply_support by exact H. apply vadd_0_l.
     - apply aapply_support. exact H.
   Qed.
 
@@ -1354,6 +1425,21 @@ Qed.
 Lemma ex_cv_pm1 h sb sm kT : cv_comps (ex_cv h sb sm kT) <> [] /\ Forall (fun p => snd p = 1 \/ snd p = -1) (cv_comps (ex_cv h sb sm kT)).
 Proof. split; [discriminate|]. unfold ex_cv; cbn [cv_comps]. constructor; [left; reflexivity|]. constructor; [right; reflexivity|]. constructor. Qed.
 
+Lemma ex_rmsd_centered :
+  let g := rmsd_grads Rops ex_pos [0%nat; 1%nat] (rmsd_best Rops ex_pos [0%nat; 1%nat] ex_refs [] (Some (0, 0, 0))) (Some (0, 0, 0)) in
+  norm2_sum Rops (vadd_list Rops g (fit_grads Rops (length [0%nat; 1%nat]) (Some (0, 0, 0)) g)) <> 0.
+Proof.
+  cbv zeta. cbn [rmsd_best best_copy].
+  assert (Hx : rmsd_value Rops ex_pos [0%nat; 1%nat] ex_refs (Some (0, 0, 0)) = 1 / 2).
+  { unfold rmsd_value, rmsd_diff, frame_pos. rewrite ex_cog2. unfold norm2_sum, tsum, ofnat, ex_refs.
+    cbn [map fold_right length ex_pos vsub_list]. unfold vnorm2, vdot, vsub, vadd. rs. change (IZR (Z.of_nat 2)) with 2.
+    match goal with |- sqrt ?e = _ => replace e with ((1 / 2) * (1 / 2)) by field end. apply sqrt_square. lra. }
+  unfold rmsd_grads. rewrite Hx. rs. assert (Rltb 0 (1 / 2) = true) as -> by (apply Rltb_true; lra).
+  unfold rmsd_diff, frame_pos. rewrite ex_cog2. unfold fit_grads, norm2_sum, tsum, ofnat, ex_refs, vsum.
+  cbn [map fold_right length ex_pos vsub_list vadd_list]. unfold vnorm2, vdot, vsub, vadd, vscale, vzero. rs. change (IZR (Z.of_nat 2)) with 2.
+  match goal with |- ?e <> 0 => replace e with (1 / 2) by field end. lra.
+Qed.
+
 (* ================================================================== statements of Properties_C07.v, verbatim *)
 Lemma thm_inverse_distance : forall (cell : option RV) (mass : nat -> R) (pos : RF) (g1 g2 : RG) (fc : R),
   gok mass g1 -> gok mass g2 -> disj g1 g2 ->
@@ -1410,22 +1496,34 @@ Lemma thm_inverse_gyration : forall (cell : option RV) (mass : nat -> R) (pos : 
   NoDup ids -> gyr_value Rops pos ids <> 0 ->
   cvc_ft Rops PI cell mass pos (CGyration ids) (cvc_apply Rops PI cell mass pos (CGyration ids) fc) = fc.
 Proof. exact inv_gyration. Qed.
-Lemma thm_inverse_rmsd : forall (cell : option RV) (mass : nat -> R) (pos : RF) (ids : list nat) (refs : list RV) (extra : list (list RV)) (center : option RV) (fc : R),
+Lemma thm_inverse_rmsd : forall (cell : option RV) (mass : nat -> R) (pos : RF) (ids : list nat) (refs : list RV) (extra : list (list RV)) (fc : R),
   NoDup ids -> (forall r, In r (refs :: extra) -> length r = length ids) ->
-  rmsd_value Rops pos ids (rmsd_best Rops pos ids refs extra center) center <> 0 ->
-  (forall rc, center = Some rc -> forall r, In r (refs :: extra) -> vsum Rops r = vscale Rops (ofnat Rops (length ids)) rc) ->
-  cvc_ft Rops PI cell mass pos (CRmsd ids refs extra center) (cvc_apply Rops PI cell mass pos (CRmsd ids refs extra center) fc) = fc.
+  rmsd_value Rops pos ids (rmsd_best Rops pos ids refs extra None) None <> 0 ->
+  cvc_ft Rops PI cell mass pos (CRmsd ids refs extra None) (cvc_apply Rops PI cell mass pos (CRmsd ids refs extra None) fc) = fc.
 Proof. exact inv_rmsd. Qed.
+Lemma thm_inverse_rmsd_centered : forall (cell : option RV) (mass : nat -> R) (pos : RF) (ids : list nat) (refs : list RV) (extra : list (list RV)) (rc : RV) (fc : R),
+  NoDup ids -> (forall r, In r (refs :: extra) -> length r = length ids) ->
+  (let g := rmsd_grads Rops pos ids (rmsd_best Rops pos ids refs extra (Some rc)) (Some rc) in
+   norm2_sum Rops (vadd_list Rops g (fit_grads Rops (length ids) (Some rc) g)) <> 0) ->
+  cvc_ft Rops PI cell mass pos (CRmsd ids refs extra (Some rc)) (cvc_apply Rops PI cell mass pos (CRmsd ids refs extra (Some rc)) fc) = fc.
+Proof. exact inv_rmsd_centered. Qed.
 Lemma thm_inverse_eigenvector : forall (cell : option RV) (mass : nat -> R) (pos : RF) (ids : list nat) (refs evec : list RV) (center : option RV) (fc : R),
   NoDup ids -> length evec = length ids -> norm2_sum Rops (eig_vec Rops evec) <> 0 ->
   cvc_ft Rops PI cell mass pos (CEigenvector ids refs evec center) (cvc_apply Rops PI cell mass pos (CEigenvector ids refs evec center) fc) = fc.
 Proof. exact inv_eigenvector. Qed.
-Lemma thm_inverse_rmsd_rotated : forall (cell : option RV) (mass : nat -> R) (pos : RF) (ids : list nat) (refs : list RV) (extra : list (list RV)) (rotf : RF -> RQ) (jdf : RF -> R) (fc : R),
-  NoDup ids -> (forall r, In r (refs :: extra) -> length r = length ids) ->
-  qnorm2 Rops (rotf pos) = 1 ->
-  rmsdrot_value Rops pos ids refs (rotmat Rops (rotf pos)) (rmsdrot_best Rops pos ids refs extra (rotmat Rops (rotf pos))) <> 0 ->
-  cvc_ft Rops PI cell mass pos (CRmsdRot ids refs extra rotf jdf) (cvc_apply Rops PI cell mass pos (CRmsdRot ids refs extra rotf jdf) fc) = fc.
+Lemma thm_inverse_rmsd_rotated : forall (cell : option RV) (mass : nat -> R) (pos : RF) (ids : list nat) (refs : list RV) (rotf : RF -> RQ) (jdf : RF -> R) (fitf : RF -> list RV) (fc : R),
+  NoDup ids -> length refs = length ids -> qnorm2 Rops (rotf pos) = 1 ->
+  rmsdrot_value Rops pos ids refs (rotmat Rops (rotf pos)) refs <> 0 ->
+  cvc_ft Rops PI cell mass pos (CRmsdRot ids refs [] rotf jdf fitf) (cvc_apply Rops PI cell mass pos (CRmsdRot ids refs [] rotf jdf fitf) fc) = fc.
 Proof. exact inv_rmsd_rot. Qed.
+Lemma thm_inverse_rmsd_rotated_permuted : forall (cell : option RV) (mass : nat -> R) (pos : RF) (ids : list nat) (refs : list RV) (e : list RV) (es : list (list RV)) (rotf : RF -> RQ) (jdf : RF -> R) (fitf : RF -> list RV) (fc : R),
+  NoDup ids -> (forall r, In r (refs :: e :: es) -> length r = length ids) -> length (fitf pos) = length ids ->
+  qnorm2 Rops (rotf pos) = 1 ->
+  (let R := rotmat Rops (rotf pos) in
+   let g := rmsdrot_grads Rops pos ids refs R (rmsdrot_best Rops pos ids refs (e :: es) R) in
+   norm2_sum Rops (vadd_list Rops g (map (mvmul Rops R) (fitf pos))) <> 0) ->
+  cvc_ft Rops PI cell mass pos (CRmsdRot ids refs (e :: es) rotf jdf fitf) (cvc_apply Rops PI cell mass pos (CRmsdRot ids refs (e :: es) rotf jdf fitf) fc) = fc.
+Proof. exact inv_rmsd_rot_perm. Qed.
 Lemma thm_rotation_matrices : forall q : RQ, qnorm2 Rops q = 1 ->
   (forall v : RV, mvmul Rops (rotmat Rops q) (mtvmul Rops (rotmat Rops q) v) = v) /\
   (forall v : RV, mvmul Rops (rotmat Rops (qconj Rops q)) v = mtvmul Rops (rotmat Rops q) v).
